@@ -82,7 +82,7 @@ package bcl
 //@   requires [C11,C06] line_table_updater_given: linePosUpdater != nil
 //@   requires [C11] fresh_token_protocol: !g.lx_fin && !g.lx_err && g.ev_close_tokens == 0 && g.ev_bytes_inputs == 0
 //@   ensures result != nil
-//@   modifies nothing
+//@   modifies g.ev_go
 
 // ---------------------------------------------------------------------------
 // diagnostics
